@@ -421,7 +421,7 @@ func (m *MapOf[K, V]) doCompute(
 				newValue, del := valueFn(zeroedV, false)
 				if del {
 					rootb.mu.Unlock()
-					return newValue, false
+					return zeroedV, false
 				}
 				// Create and append a bucket.
 				newb := new(bucketOfPadded)
